@@ -2,6 +2,7 @@ package main
 
 import (
 	"fmt"
+	"go/token"
 	"go/types"
 	"strings"
 
@@ -352,6 +353,78 @@ func jsInstalls(fn *ssa.Function, depth int) []jsInstall {
 				v = mi.X
 			}
 			call, ok := v.(*ssa.Call)
+			if ok && calleeName(&call.Call) != "syscall/js.FuncOf" {
+				// the wrapped handler comes from a helper (`t.callbackIf(cond, t.onMouseEvent)`): each of
+				// its returns, with its parameters standing for the arguments
+				if h := call.Call.StaticCallee(); h != nil && h.Pkg == fn.Pkg && len(h.Blocks) > 0 {
+					argOf := func(pa *ssa.Parameter) ssa.Value {
+						for i, q := range h.Params {
+							if q == pa && i < len(call.Call.Args) {
+								return call.Call.Args[i]
+							}
+						}
+						return nil
+					}
+					resolved := true
+					var insts []jsInstall
+					for _, r := range returnsOf(h) {
+						fo, isFO := derefCell(resultOf(r, 0)).(*ssa.Call)
+						if !isFO || calleeName(&fo.Call) != "syscall/js.FuncOf" || len(fo.Call.Args) != 1 {
+							resolved = false
+							break
+						}
+						var gs []Atom
+						for _, g := range rawGuardsAt(r.Block()) {
+							cond, pos := g.Cond, g.Positive
+							if u, isU := cond.(*ssa.UnOp); isU && u.Op == token.NOT {
+								cond, pos = u.X, !pos
+							}
+							if pa, isP := cond.(*ssa.Parameter); isP {
+								if a := argOf(pa); a != nil {
+									for _, e := range expandCond(a, pos, 0) {
+										if at, okA := condAtom(e.Cond, e.Positive); okA {
+											gs = append(gs, at.canon())
+										}
+									}
+									continue
+								}
+							}
+							if at, okA := condAtom(cond, pos); okA {
+								gs = append(gs, at.canon())
+							}
+						}
+						for _, a := range handlerAlts(fo.Call.Args[0], 0) {
+							if a.kind == "param" {
+								var bound ssa.Value
+								for _, q := range h.Params {
+									if q.Name() == a.name {
+										bound = argOf(q)
+									}
+								}
+								if bound == nil {
+									resolved = false
+									continue
+								}
+								for _, b := range handlerAlts(bound, 0) {
+									i2 := inst
+									i2.handler, i2.kind = b.name, b.kind
+									i2.guards = append(append(append([]Atom{}, here...), gs...), b.guards...)
+									insts = append(insts, i2)
+								}
+								continue
+							}
+							i2 := inst
+							i2.handler, i2.kind = a.name, a.kind
+							i2.guards = append(append(append([]Atom{}, here...), gs...), a.guards...)
+							insts = append(insts, i2)
+						}
+					}
+					if resolved && len(insts) > 0 {
+						out = append(out, insts...)
+						return
+					}
+				}
+			}
 			if !ok || calleeName(&call.Call) != "syscall/js.FuncOf" || len(call.Call.Args) != 1 {
 				inst.handler, inst.kind, inst.guards = "?", "?", here
 				out = append(out, inst)
